@@ -375,9 +375,9 @@ impl Check for SessCc {
 
     fn budget(&self, tier: Tier) -> u64 {
         match (self.id, tier) {
-            ("C08", Tier::Quick) => 30_000,
+            ("C08", Tier::Quick) => 60_000,
             ("C08", Tier::Thorough) => 600_000,
-            (_, Tier::Quick) => 20_000,
+            (_, Tier::Quick) => 40_000,
             (_, Tier::Thorough) => 400_000,
         }
     }
